@@ -158,3 +158,17 @@ CLAIMS["C03"] = {
     "note": "Not decided: finiteness of modelled values (NaN from degenerate calibration sets) - numeric. Aggregate floor for the "
             "nonparametric estimator follows from R2 + C02.R2 (lemma, not a separate rule).",
 }
+
+CLAIMS["C11"] = {
+    "technique": "frame algebra + indicator-matrix bookkeeping for the unexpected-unit terms; constant folding for key recovery; "
+                 "two-kind taint analysis (row values / category universe) over the def-use terms of compute_bootstrap_errors "
+                 "with the code's own sanitisers; guard-agreement rule for the classification key",
+    "level": "Decides for every unexpected unit, request and estimator: its counted votes enter counted votes, prediction and both "
+             "bounds exactly once per group at every non-classification level (new groups are created and filled), every key it is "
+             "grouped by is recovered in all office-class x request configurations, bootstrap numerators and denominators include "
+             "its margin / two-party votes exactly once, nothing that is fitted or randomly drawn depends on it (not even through "
+             "an extra dummy column), and wherever rows containing unexpected units are keyed by the aggregate list the "
+             "classification level is excluded, so the run cannot fail on the unknown classification.",
+    "note": "Trusted: get_dummies creates columns for all rows given; filter_to_active_features keeps only levels seen on fitting "
+            "rows (C16.R3). 'Leaves every other number unchanged' is decided as absence of data/universe flow, not bit-for-bit.",
+}
